@@ -42,7 +42,7 @@ class TheCheck(SeqCheck):
                    "theorems assume fewer than 2^31 elements (an `int` index cannot address more) and `int` indexes",
                    "popint/getint on elements shorter than 8 bytes and getnext through a cursor whose successor was "
                    "removed are outside the API contract (model: Fault.oob / Fault.dangling) and are not generated",
-                   "allocation failure is not exercised here (C15: Props/C15Seq.lean, checks/seqoverlay.py)"]
+                   "allocation failure is exercised here only inside getnext walks (walk-retry stream); the rest is C15 (Props/C15Seq.lean, checks/seqoverlay.py)"]
     exhaustive_note = True
 
     # ------------------------------------------------------------------ generators
@@ -183,7 +183,9 @@ class TheCheck(SeqCheck):
                         op = "clear"
                     elif r < 0.80:
                         op = "addnull %d" % idx
-                    elif r < 0.84:
+                    elif r < 0.82:
+                        op = "inv"
+                    elif r < 0.85:
                         op = "reset"
                     else:
                         op = "next %d" % rng.randrange(2)
@@ -192,6 +194,88 @@ class TheCheck(SeqCheck):
                         ideal.apply(op.split())
                         break
             hs.append(h)
+        return hs
+
+    # ------------------------------------------------------------------ glue around the modelled core
+    def gen_ctor_options(self):
+        """constructors with every option word over the documented bit (THREADSAFE = 1) and the two
+        words next to it (2, 3: bits the documentation neither defines nor forbids)"""
+        hs = []
+        for kind, fill in (("list", ["addlast 6100", "addfirst 62", "addat 1 63"]), ("queue", ["push 6100", "pushstr 62", "pushint 7"]),
+                           ("stack", ["push 6100", "pushstr 62", "pushint 7"]), ("grow", ["add 6100", "addstr 62", "addstrf 63 7"])):
+            for opt in range(4):
+                tail = {"list": ["walk 1", "tostring", "popfirst", "reverse", "clear"], "grow": ["tostring", "toarray", "clear"],
+                        "queue": ["get 1", "pop", "popstr", "popint", "clear"], "stack": ["get 1", "popint", "popstr", "pop", "clear"]}[kind]
+                hs.append(["new %s %d" % (kind, opt), "inv"] + fill + ["inv"] + tail + ["inv", "end"])
+        return hs
+
+    def gen_invalid(self):
+        """`inv`: every documented-invalid call, the optional out-pointers left NULL, setsize edge values,
+        on lists of every small size, built in different ways, with and without a size limit"""
+        hs = []
+        for n in range(6):
+            for how in ("last", "mid"):
+                for mx in sorted({0, n, n + 1, max(n - 1, 0)}):
+                    hs.append(["new list"] + build(n, how) + ["setsize %d" % mx, "inv", "walk 0", "addlast 7a", "inv", "end"])
+            for kind in ("queue", "stack"):
+                for mx in (0, n):
+                    hs.append(["new " + kind] + ["push " + hexs(POOL[i % 8]) for i in range(n)] + ["setsize %d" % mx, "inv", "pop", "inv", "end"])
+            hs.append(["new grow"] + ["add " + hexs(POOL[i % 8]) for i in range(n)] + ["inv", "tostring", "clear", "inv", "end"])
+        return hs
+
+    def gen_walk_retry(self):
+        """getnext with the caller's cursor under an allocation failure in the k-th call (newmem and
+        not), the failed call RETRIED with the same cursor and the walk continued to its end: the
+        element due is delivered, none skipped or repeated (walk-completeness in the oracle)"""
+        hs = []
+        for n in range(6):
+            for how in ("last", "first"):
+                for nm in (1, 0):
+                    for k in range(n + 1):
+                        for arm in ("fault 1", "faultfrom 1", "fault 2"):
+                            h = ["new list %d" % (k & 1)] + build(n, how) + ["reset"] + ["next %d" % nm] * k
+                            h += [arm, "next %d" % nm] + ["next %d" % nm] * (n + 2 - k)
+                            # a second walk with a failure in every other call, each retried
+                            h += ["reset"]
+                            for _ in range(n + 1):
+                                h += ["fault 1", "next 1", "next 1"]
+                            hs.append(h + ["next 0", "end"])
+        return hs
+
+    def gen_wrappers(self):
+        """string / integer views of queue and stack: INT64 limits, elements of exactly 8 bytes,
+        strings of length 0, 1 and long ones; tostring / toarray / reverse on 0, 1, 2 elements"""
+        ints = [0, 1, -1, 255, 256, -256, 2**31 - 1, 2**31, -2**31, -2**31 - 1, 2**32, 2**63 - 1, -2**63, -2**63 + 1, 72057594037927936]
+        strs = [b"", b"a", b"ab", b"x" * 7, b"y" * 8, b"z" * 300]
+        hs = []
+        for kind in ("queue", "stack"):
+            for ts in (0, 1):
+                h = ["new %s %d" % (kind, ts), "getint", "popint", "getstr", "popstr", "get 1", "pop"]
+                h += ["pushint %d" % v for v in ints] + ["getint"] + ["getint", "popint"] * len(ints) + ["popint"]
+                # raw elements of exactly 8 bytes read back as integers
+                raw = [bytes(8), b"\xff" * 8, bytes(range(1, 9)), b"\x00" * 7 + b"\x80"]
+                h += ["push " + hexs(r) for r in raw] + ["getint", "popint"] * len(raw)
+                h += ["pushstr " + hexs(x) for x in strs] + ["getstr", "popstr"] * len(strs) + ["popstr", "pushstr null"]
+                # strings pushed as raw bytes with their terminator, and integers popped as raw bytes
+                h += ["push 616200", "getstr", "popstr", "pushint -2", "pop", "pushstr 6364", "pop", "end"]
+                hs.append(h)
+        for n in range(4):
+            els = [hexs(CLASSES[(i * 3 + n) % len(CLASSES)]) for i in range(n)]
+            hs.append(["new list"] + ["addlast " + e for e in els] + ["tostring", "toarray", "reverse", "tostring", "toarray", "walk 1",
+                                                                    "reverse", "size", "datasize", "end"])
+            hs.append(["new grow"] + ["add " + e for e in els] + ["tostring", "toarray", "size", "datasize", "clear", "tostring", "toarray", "end"])
+        return hs
+
+    def gen_format_lengths(self, top):
+        """qgrow addstrf with EVERY formatted length 0..top (format "%s": the length of the argument),
+        so that a boundary of any buffer inside the formatting path is hit"""
+        hs = []
+        for L in range(top + 1):
+            body = bytes(97 + (i * 11 + L) % 26 for i in range(L))
+            h = ["new grow %d" % (L & 1), "addstrfs " + hexs(body)]
+            if L % 64 == 0 or L in (1023, 1024, 1025, 2047, 2048, 2049):
+                h += ["addstr " + hexs(body), "tostring", "addstrf %s -3" % hexs(body[:max(L - 3, 0)])]
+            hs.append(h + ["end"])
         return hs
 
     def streams(self):
@@ -209,6 +293,17 @@ class TheCheck(SeqCheck):
         sts.append(Stream("grow-long-addstrf", pack(self.gen_grow_long()), history=True,
                           note="addstrf with formatted lengths 1000..1025, 2040..2050, 4090..4100, 5000, 10000"))
         sts.append(Stream("random-list", pack(self.gen_random_list(100 if quick else 1500, 120)), history=True))
+        sts.append(Stream("ctor-options", pack(self.gen_ctor_options()), history=True,
+                          note="every container kind x option words 0..3 (THREADSAFE and the undefined neighbour bit)"))
+        sts.append(Stream("invalid-args", pack(self.gen_invalid()), history=True,
+                          note="inv = every documented-invalid call + NULL out-pointers + setsize edge values, n<=5, limits"))
+        sts.append(Stream("walk-retry", pack(self.gen_walk_retry()), history=True,
+                          note="getnext (newmem and not) failing in the k-th call, retried with the same cursor, walk completed; n<=5"))
+        sts.append(Stream("wrappers", pack(self.gen_wrappers()), history=True,
+                          note="pushint/popint/getint at the INT64 limits and on raw 8-byte elements, pushstr/popstr/getstr, "
+                               "tostring/toarray/reverse on 0..3 elements"))
+        sts.append(Stream("format-lengths", pack(self.gen_format_lengths(2100 if quick else 4200)), history=True,
+                          note="addstrf with every formatted length 0..2100"))
         if not quick:
             # total byte sizes of exactly 2^31 and beyond (size_t arithmetic in toarray / datasize)
             sts.append(Stream("huge", ["hugeseq 2048 1048576", "hugeseq 2049 1048576", "hugeseq 4097 1048576"], history=False, nomodel=True,
